@@ -201,6 +201,24 @@ func c09SpecialSeq(g *gen.G, which int) *c09Seq {
 		c3 := mk("expr", "c09-guarded-by-swapped-in-import", y, imp(' ', "example.com/new/swaplog"), "swapMark(«y»)", "swapNew(«y»)")
 		return &c09Seq{changes: []*gen.Change{c1, c2, c3}, roles: []string{"swaps-import", "guarded-by-removed-import", "guarded-by-swapped-in-import"}, base: c1,
 			extra: []string{"swapMark(%s)"}, imports: "import (\n\t\"example.com/old/swaplog\"\n\t\"os\"\n)\n\nvar _ = os.Args\n"}
+	case 13:
+		// an earlier change has an import on a context line, a later change of the same patch file has the same import
+		// on a '-' line and removes its last uses: what one change keeps says nothing about the other
+		c1 := mk("expr", "c09-keeps-import-as-context", x, []gen.Line{gen.L(' ', `import "example.com/old/keptlog"`), gen.L(' ', "")}, "keptlog.Warn(«x»)", "keptlog.Warning(«x»)")
+		c2 := mk("expr", "c09-removes-that-import", y, []gen.Line{gen.L('-', `import "example.com/old/keptlog"`), gen.L('+', `import "example.com/new/keptlog2"`), gen.L(' ', "")}, "keptlog.Warning(«y»)", "keptlog2.Warning(«y»)")
+		return &c09Seq{changes: []*gen.Change{c1, c2}, roles: []string{"keeps-import-as-context", "removes-that-import"}, base: c1,
+			extra:   []string{"keptlog.Warn(%s)", "keptlog.Warning(%s)"},
+			imports: "import (\n\t\"example.com/old/keptlog\"\n\t\"os\"\n)\n\nvar _ = os.Args\n"}
+	case 14:
+		// an earlier change declares a local variable that is named like an imported package, above a use of that name;
+		// a later change is guarded by the import and rewrites uses of the package's name: the combined run and the
+		// chain look at the same code, whatever the parser knew about the name when the file was read
+		c1 := mk("stmts", "c09-declares-a-shadowing-local", nil, nil, "setupShadowLog()", "shlog := newLogger()")
+		c2 := mk("expr", "c09-guarded-by-the-shadowed-import", y, []gen.Line{gen.L(' ', `import "example.com/pkg/shlog"`), gen.L(' ', "")}, "shlog.Print(«y»)", "shlog.Println(«y»)")
+		return &c09Seq{changes: []*gen.Change{c1, c2}, roles: []string{"declares-a-shadowing-local", "guarded-by-the-shadowed-import"}, base: c1,
+			extra:   []string{"shlog.Print(%s)"},
+			decls:   []string{"func shadowLogFn() {\n\tsetupShadowLog()\n\tshlog.Print(\"x\")\n}"},
+			imports: "import (\n\t\"example.com/pkg/shlog\"\n\t\"os\"\n)\n\nvar _ = os.Args\n"}
 	case 12:
 		// an earlier change writes the file's first references to a package and adds its import; a later change removes
 		// that import and rewrites only some of the references: whether the import may go is decided on the file as it
@@ -494,6 +512,10 @@ func runC09(ctx *core.Ctx, idx int) *core.Result {
 		seq = c09SpecialSeq(g, 11)
 	case 19:
 		seq = c09SpecialSeq(g, 12)
+	case 13:
+		seq = c09SpecialSeq(g, 13)
+	case 7:
+		seq = c09SpecialSeq(g, 14)
 	}
 	// files
 	nf := 3
